@@ -61,6 +61,7 @@ type sim struct {
 	// tag map of the last SaveIndex, not the one in memory
 	noAuto bool
 	saved  map[int]int
+	gcUniv bool // the universe with referrers (blob 7 is a proper manifest there)
 }
 
 func newSim() *sim { return &sim{blobs: map[int]bool{}, tags: map[int]int{}, saved: map[int]int{}} }
@@ -68,6 +69,7 @@ func newSim() *sim { return &sim{blobs: map[int]bool{}, tags: map[int]int{}, sav
 func (s *sim) clone() *sim {
 	c := newSim()
 	c.noAuto = s.noAuto
+	c.gcUniv = s.gcUniv
 	for k, v := range s.saved {
 		c.saved[k] = v
 	}
@@ -90,12 +92,18 @@ func (s *sim) apply(o ck.Op) {
 	}
 }
 
+// undecodable: ids of blobs with a manifest media type whose bytes are not JSON:
+// Push stores nothing and fails, Tag is refused
+var undecodable = map[int]bool{7: true}
+
 func (s *sim) applyMem(o ck.Op) {
 	switch o.Kind {
 	case "push":
-		s.blobs[o.Blob] = true
+		if !(undecodable[o.Blob] && !s.gcUniv) {
+			s.blobs[o.Blob] = true
+		}
 	case "tag":
-		if s.blobs[o.Blob] {
+		if s.blobs[o.Blob] && !(undecodable[o.Blob] && !s.gcUniv) {
 			s.tags[o.Ref] = o.Blob
 		}
 	case "untag":
@@ -172,6 +180,7 @@ func universe(r *common.Rand, big bool) []ck.Blob {
 		ck.Blob{ID: 4, Kind: "manifest", MediaType: mtManifest, JSON: manifestJSON(&bs[2], []*ck.Blob{&bs[0]}, salt)},
 		ck.Blob{ID: 5, Kind: "manifest", MediaType: mtManifest, JSON: manifestJSON(&bs[2], []*ck.Blob{&bs[0], &bs[1]}, salt+1)},
 		ck.Blob{ID: 6, Kind: "manifest", MediaType: mtManifest, JSON: manifestJSON(&bs[2], nil, salt+2)},
+		ck.Blob{ID: 7, Kind: "badmanifest", Fill: r.U64() >> 12, MediaType: mtManifest},
 		l512,
 		ck.Blob{ID: 1002, Alg: "sha512", Kind: "manifest", MediaType: mtManifest, JSON: manifestJSON(&bs[2], []*ck.Blob{&l512}, salt+3)},
 	)
@@ -366,6 +375,7 @@ var finalKinds = []string{
 	"saveindex", "reopen",
 	"push-sha512", "push-manifest-sha512", "delete-sha512",
 	"delete-after-variant-tag", "delete-variant", "tag-variant",
+	"push-undecodable", "tag-undecodable", "tag-undecodable-after-crash",
 }
 
 // realize extends the history so that the situation exists and returns the final op.
@@ -468,6 +478,14 @@ func realize(r *common.Rand, kind string, s *sim, hist *[]ck.Op) ck.Op {
 			do(ck.Op{Kind: "tag", Blob: man, Ref: 6})
 		}
 		return ck.Op{Kind: "tag", Blob: man, Ref: 6, Variant: true}
+	case "push-undecodable":
+		ensure(7, false)
+		return ck.Op{Kind: "push", Blob: 7}
+	case "tag-undecodable", "tag-undecodable-after-crash":
+		if !s.blobs[7] {
+			do(ck.Op{Kind: "push", Blob: 7})
+		}
+		return ck.Op{Kind: "tag", Blob: 7, Ref: 8}
 	case "saveindex-after-delete":
 		ensure(man, true)
 		do(ck.Op{Kind: "tag", Blob: man, Ref: 1})
@@ -583,6 +601,9 @@ func modelScript(sc *ck.Script, sizes map[int][]int64, hist []string, final stri
 		m := 0
 		if b.IsManifest() {
 			m = 1
+		}
+		if b.Undecodable() {
+			m = 2
 		}
 		n := len(sizes[b.ID]) // 0 when never ingested: the model never looks at it then
 		bl = append(bl, fmt.Sprintf("%d:%d:%d", b.ID, n, m))
@@ -783,6 +804,17 @@ func execSegment(sc *ck.Script, i int, p *prepared) bool {
 		return false
 	}
 	k := seg.K % len(win)
+	if seg.K < 0 {
+		// "just after the blob was renamed into place"
+		k = len(win) - 1
+		for i, st := range recSteps {
+			if strings.HasPrefix(st.Text, "rename:T") && st.Index+1 < len(win) {
+				k = st.Index + 1
+				break
+			}
+			_ = i
+		}
+	}
 	ktr, err := ck.Run(exe, p.base, scriptPath, p.dir, &ck.Inject{Name: win[k].Name, Ord: win[k].Ord})
 	if err == ck.ErrTimeout {
 		run.Count("script-abandoned-child-timeout")
@@ -800,7 +832,7 @@ func execSegment(sc *ck.Script, i int, p *prepared) bool {
 	doneSteps := nm.Project(done, map[int64]string{})
 	seg.J = len(doneSteps)
 	state := ck.ObserveDir(p.base, sc, p.sizes)
-	fails := oracle(p.base, sc, before, after)
+	fails := oracle(p.base, trunc, before, after)
 	id := run.NewID()
 	judged := strings.HasPrefix(stepsText(recSteps)+" ", stepsText(doneSteps)+" ") || len(doneSteps) == 0
 	if judged {
@@ -814,6 +846,7 @@ func execSegment(sc *ck.Script, i int, p *prepared) bool {
 	}
 	run.Count("earlier-crashes")
 	p.sim = observed(p.base, sc)
+	p.sim.noAuto, p.sim.gcUniv = sc.NoAutoSave, gcUniverse(sc)
 	return judged // the model cannot follow a cascade whose order it was not told
 }
 
@@ -959,6 +992,7 @@ func runScript(sc *ck.Script, onlyK int, allK bool) {
 	p := newPrepared()
 	defer p.close()
 	p.sim.noAuto = sc.NoAutoSave
+	p.sim.gcUniv = gcUniverse(sc)
 	for i := range sc.Pre {
 		if !execSegment(sc, i, p) {
 			return
@@ -1033,6 +1067,12 @@ func oracle(root string, sc *ck.Script, before, after *sim) []failure {
 			continue
 		}
 		onDisk[id] = true
+		if sc.Final.Kind == "push" && sc.Final.Blob == id && undecodable[id] && !gcUniverse(sc) {
+			// a manifest that does not decode is stored, found unindexable and removed again:
+			// between the two it is a complete, correctly named blob that no index entry names
+			// (the quiescent state in the middle of that call)
+			continue
+		}
 		if !before.blobs[id] && !after.blobs[id] {
 			add("blob-unexpected", "blob %d exists although it was neither present before nor after the interrupted operation", id)
 		}
@@ -1131,7 +1171,7 @@ func genHistory(r *common.Rand, sc *ck.Script, s *sim, n int) []ck.Op {
 	return h
 }
 
-func gcUniverse(sc *ck.Script) bool { return len(sc.Blobs) == 7 }
+func gcUniverse(sc *ck.Script) bool { return len(sc.Blobs) == 7 && sc.Blobs[6].Kind == "manifest" }
 
 func runGenerated(r *common.Rand, histLen int, kind string, big bool, allK bool, crashes int) {
 	runGeneratedIn(r, &ck.Script{Blobs: universe(r, big)}, histLen, kind, allK, crashes)
@@ -1147,6 +1187,7 @@ func runGeneratedIn(r *common.Rand, sc *ck.Script, histLen int, kind string, all
 	p := newPrepared()
 	defer p.close()
 	p.sim.noAuto = sc.NoAutoSave
+	p.sim.gcUniv = gcUniverse(sc)
 	for i := 0; i < crashes; i++ {
 		s := p.sim.clone()
 		seg := ck.Segment{History: genHistory(r, sc, s, r.Intn(4))}
@@ -1164,6 +1205,14 @@ func runGeneratedIn(r *common.Rand, sc *ck.Script, histLen int, kind string, all
 		if !execSegment(sc, i, p) {
 			return
 		}
+	}
+	if kind == "tag-undecodable-after-crash" && crashes == 0 && !sc.NoAutoSave {
+		// an earlier process died right after it had renamed the undecodable manifest into blobs/
+		sc.Pre = append(sc.Pre, ck.Segment{Final: ck.Op{Kind: "push", Blob: 7}, K: -1})
+		if !execSegment(sc, len(sc.Pre)-1, p) {
+			return
+		}
+		histLen = 0
 	}
 	s := p.sim.clone()
 	sc.History = genHistory(r, sc, s, histLen)
